@@ -158,7 +158,7 @@ func parseHeaders(h *protocol.ResponseHeader, buf []byte) (int, error) {
 					continue
 				}
 				if utils.CaseInsensitiveCompare(s.Key, bytestr.StrConnection) {
-					if bytes.Equal(s.Value, bytestr.StrClose) {
+					if ext.HasHeaderValue(s.Value, bytestr.StrClose) {
 						h.SetConnectionClose(true)
 					} else {
 						h.SetConnectionClose(false)
